@@ -1,8 +1,8 @@
 (* C13 — property theorems only.  Bodies live in Proofs.v / CountProofs.v / LogBinProofs.v. *)
-From Coq Require Import Reals QArith Qround Sorting.Permutation.
+From Coq Require Import Reals QArith Qround Sorting.Permutation PrimFloat.
 From Flocq Require Import Raux.
 From EsVerif.Common Require Import Base.
-From EsVerif.C13 Require Import Model Spec Proofs CountProofs ModelR LogBinProofs.
+From EsVerif.C13 Require Import Model Spec Proofs CountProofs ModelR LogBinProofs FloatModel FloatProofs Exec.
 
 (* ---- ids.  [root] and [choose] are the unmodelled floating-point choices of the JHU code; the
    hypotheses (a root triangle is found, a child number is 0..3, some child always accepts the
@@ -31,10 +31,70 @@ Theorem C13_scalar_equals_array : forall (P : Type) (root : P -> Z) choose depth
              /\ l2 = [nth i l1 0%Z].
 Proof. intros P root choose depth ps i d. apply lookup_id_elementwise. Qed.
 
+(* ---- the concrete root / child choice of SpatialIndex::idByPoint, bit-exact (FloatModel.v): the
+   abstract theorems above instantiated.  digits_ok holds by construction, the stored levels never get
+   stuck, so the only hypothesis left is [accepted]: a root triangle accepts the position and, at the
+   dynamic levels, some child does (monitored: C13_range_monitor_complete). *)
+Theorem C13_concrete_digits_ok : forall eps build, digits_ok vec (chooseF eps build).
+Proof. exact chooseF_digits. Qed.
+
+Theorem C13_concrete_stored_levels_never_stuck : forall eps build id v,
+  (level_of_id id < build)%Z -> chooseF eps build id v <> None.
+Proof. exact chooseF_stored. Qed.
+
+Theorem C13_concrete_id_range : forall eps save v depth, accepted eps save v depth ->
+  (8 * 4 ^ Z.of_nat depth <= lookupF eps save depth v < 16 * 4 ^ Z.of_nat depth)%Z.
+Proof. exact concrete_id_range. Qed.
+
+(* HTM(d+1) and HTM(d) keep different numbers of stored levels when d < saveDepth; the ids are
+   nevertheless parent and child *)
+Theorem C13_concrete_hierarchy : forall eps save v d, accepted eps save v (S d) ->
+  (lookupF eps save (S d) v / 4 = lookupF eps save d v)%Z.
+Proof. exact concrete_hierarchy. Qed.
+
+(* non-vacuity on numbers of the real implementation: (ra, dec) = (10, 20); x, y, z as updateXYZ
+   computes them; the ids are those esutil returns at depths 0..4 *)
+Example C13_concrete_nonvacuous :
+  let eps := 0x1.203af9ee75616p-50%float in
+  let v := mkvec 0x1.d9d033a6cb461p-1%float 0x1.4e2f2c0fa463bp-3%float 0x1.5e3a8748a0bf5p-2%float in
+  rootF eps v = 15%Z
+  /\ map (fun d => lookupF eps 2 d v) [0; 1; 2; 3; 4]%nat = [15; 62; 251; 1005; 4023]%Z
+  /\ map (fun d => lookupF_fast eps 2 d v) [0; 1; 2; 3; 4]%nat = [15; 62; 251; 1005; 4023]%Z.
+Proof. vm_compute. repeat split; reflexivity. Qed.
+
 (* ---- intersect: the non-inclusive answer is the leading part of the inclusive one *)
 Theorem C13_intersect_full_in_inclusive : forall flist plist x,
   In x (intersect_out false flist plist) -> In x (intersect_out true flist plist).
 Proof. intros f p x H. simpl in *. apply in_or_app. left. exact H. Qed.
+
+(* what the verdict of an intersect case means (Exec.intersect_ok, evaluated on the lists the real
+   intersect returned and on sampled positions; code 1 = inside the circle, 2 = outside):
+   strict: the triangle of EVERY inside sample is listed and no outside sample lies in a triangle
+   reported as fully inside;  relaxed (used only to recognise the known finding
+   C13.kf_cos_resolution): the same for every sample that is resolved against the circle *)
+Theorem C13_intersect_checker_strict : forall incl full (ss : list rawsample),
+  intersect_ok false incl full ss = true ->
+  (forall id dcos, In (id, 1%Z, dcos) ss -> In id incl)
+  /\ (forall id dcos, In (id, 2%Z, dcos) ss -> ~ In id full).
+Proof.
+  intros incl full ss H. unfold intersect_ok in H. apply andb_prop in H. destruct H as [H1 H2].
+  apply covers_samples_sound in H1. apply full_only_inside_sound in H2. split.
+  - intros id dcos Hin. apply H1. apply (in_map (side_of false)) in Hin. exact Hin.
+  - intros id dcos Hin. apply H2. apply (in_map (side_of false)) in Hin. exact Hin.
+Qed.
+
+Theorem C13_intersect_outside_known : forall incl full (ss : list rawsample),
+  intersect_ok true incl full ss = true ->
+  (forall id dcos, In (id, 1%Z, dcos) ss -> kf_cos_resolution dcos = false -> In id incl)
+  /\ (forall id dcos, In (id, 2%Z, dcos) ss -> kf_cos_resolution dcos = false -> ~ In id full).
+Proof.
+  intros incl full ss H. unfold intersect_ok in H. apply andb_prop in H. destruct H as [H1 H2].
+  apply covers_samples_sound in H1. apply full_only_inside_sound in H2. split.
+  - intros id dcos Hin Hk. apply H1. apply (in_map (side_of true)) in Hin.
+    unfold side_of in Hin at 1. rewrite Hk in Hin. exact Hin.
+  - intros id dcos Hin Hk. apply H2. apply (in_map (side_of true)) in Hin.
+    unfold side_of in Hin at 1. rewrite Hk in Hin. exact Hin.
+Qed.
 
 (* ---- bincount, discrete part *)
 Theorem C13_rev_traversal_visits_each_member_once : forall rev minid maxid ids2 cover,
